@@ -151,11 +151,13 @@ Record wmon := {
   wm_handles : list bool;
   wm_dead : bool;                 (* dispatch ended with an error or was dropped *)
   wm_ended : bool;                (* dispatch ended (any result) *)
-  wm_ready : bool; wm_flush : bool; wm_tainted : bool (* fault armed / eof / close fiddled *) }.
+  wm_ready : bool; wm_flush : bool; wm_tainted : bool (* fault armed / eof / close fiddled *);
+  wm_delivered : nat; wm_read : nat (* responses handed to the transport / read by the dispatch *) }.
 
 Definition wm0 := {| wm_calls := 0; wm_live := []; wm_done := []; wm_dropped := [];
                      wm_handles := [true]; wm_dead := false; wm_ended := false;
-                     wm_ready := true; wm_flush := true; wm_tainted := false |}.
+                     wm_ready := true; wm_flush := true; wm_tainted := false;
+                     wm_delivered := 0; wm_read := 0 |}.
 
 Definition memn (x : nat) (l : list nat) := existsb (Nat.eqb x) l.
 
@@ -163,40 +165,45 @@ Definition wm_op (m : wmon) (o : sop) : wmon :=
   match o with
   | SClone h =>
     match nth_error (wm_handles m) h with
-    | Some true => {| wm_calls := wm_calls m; wm_live := wm_live m; wm_done := wm_done m; wm_dropped := wm_dropped m; wm_handles := wm_handles m ++ [true]; wm_dead := wm_dead m; wm_ended := wm_ended m; wm_ready := wm_ready m; wm_flush := wm_flush m; wm_tainted := wm_tainted m |}
+    | Some true => {| wm_calls := wm_calls m; wm_live := wm_live m; wm_done := wm_done m; wm_dropped := wm_dropped m; wm_handles := wm_handles m ++ [true]; wm_dead := wm_dead m; wm_ended := wm_ended m; wm_ready := wm_ready m; wm_flush := wm_flush m; wm_tainted := wm_tainted m; wm_delivered := wm_delivered m; wm_read := wm_read m |}
     | _ => m end
   | SDropH h =>
     {| wm_calls := wm_calls m; wm_live := wm_live m; wm_done := wm_done m; wm_dropped := wm_dropped m;
        wm_handles := set_nth h false (wm_handles m); wm_dead := wm_dead m; wm_ended := wm_ended m;
-       wm_ready := wm_ready m; wm_flush := wm_flush m; wm_tainted := wm_tainted m |}
+       wm_ready := wm_ready m; wm_flush := wm_flush m; wm_tainted := wm_tainted m; wm_delivered := wm_delivered m; wm_read := wm_read m |}
   | SCall h _ _ _ _ =>
     let alive := match nth_error (wm_handles m) h with Some true => true | _ => false end in
     {| wm_calls := S (wm_calls m); wm_live := wm_live m ++ [alive]; wm_done := wm_done m;
        wm_dropped := wm_dropped m; wm_handles := wm_handles m; wm_dead := wm_dead m;
        wm_ended := wm_ended m; wm_ready := wm_ready m; wm_flush := wm_flush m;
-       wm_tainted := wm_tainted m |}
+       wm_tainted := wm_tainted m; wm_delivered := wm_delivered m; wm_read := wm_read m |}
   | SDropCall i | SGClose i =>
     {| wm_calls := wm_calls m; wm_live := wm_live m; wm_done := wm_done m;
        wm_dropped := i :: wm_dropped m; wm_handles := wm_handles m; wm_dead := wm_dead m;
        wm_ended := wm_ended m; wm_ready := wm_ready m; wm_flush := wm_flush m;
-       wm_tainted := wm_tainted m |}
+       wm_tainted := wm_tainted m; wm_delivered := wm_delivered m; wm_read := wm_read m |}
   | SDropD =>
     {| wm_calls := wm_calls m; wm_live := wm_live m; wm_done := wm_done m;
        wm_dropped := wm_dropped m; wm_handles := wm_handles m; wm_dead := true;
        wm_ended := true; wm_ready := wm_ready m; wm_flush := wm_flush m;
-       wm_tainted := wm_tainted m |}
+       wm_tainted := wm_tainted m; wm_delivered := wm_delivered m; wm_read := wm_read m |}
   | STr (TSetReady b) =>
     {| wm_calls := wm_calls m; wm_live := wm_live m; wm_done := wm_done m;
        wm_dropped := wm_dropped m; wm_handles := wm_handles m; wm_dead := wm_dead m;
-       wm_ended := wm_ended m; wm_ready := b; wm_flush := wm_flush m; wm_tainted := wm_tainted m |}
+       wm_ended := wm_ended m; wm_ready := b; wm_flush := wm_flush m; wm_tainted := wm_tainted m; wm_delivered := wm_delivered m; wm_read := wm_read m |}
   | STr (TSetFlush b) =>
     {| wm_calls := wm_calls m; wm_live := wm_live m; wm_done := wm_done m;
        wm_dropped := wm_dropped m; wm_handles := wm_handles m; wm_dead := wm_dead m;
-       wm_ended := wm_ended m; wm_ready := wm_ready m; wm_flush := b; wm_tainted := wm_tainted m |}
+       wm_ended := wm_ended m; wm_ready := wm_ready m; wm_flush := b; wm_tainted := wm_tainted m; wm_delivered := wm_delivered m; wm_read := wm_read m |}
+  | STr (TDeliver _) =>
+    {| wm_calls := wm_calls m; wm_live := wm_live m; wm_done := wm_done m;
+       wm_dropped := wm_dropped m; wm_handles := wm_handles m; wm_dead := wm_dead m;
+       wm_ended := wm_ended m; wm_ready := wm_ready m; wm_flush := wm_flush m;
+       wm_tainted := wm_tainted m; wm_delivered := S (wm_delivered m); wm_read := wm_read m |}
   | STr (TFail _) | STr TEof | STr (TSetClose _) =>
     {| wm_calls := wm_calls m; wm_live := wm_live m; wm_done := wm_done m;
        wm_dropped := wm_dropped m; wm_handles := wm_handles m; wm_dead := wm_dead m;
-       wm_ended := wm_ended m; wm_ready := wm_ready m; wm_flush := wm_flush m; wm_tainted := true |}
+       wm_ended := wm_ended m; wm_ready := wm_ready m; wm_flush := wm_flush m; wm_tainted := true; wm_delivered := wm_delivered m; wm_read := wm_read m |}
   | _ => m
   end.
 
@@ -212,23 +219,27 @@ Fixpoint c02_run (c : ccfg) (m : wmon) (ops : list wop) (tr : list wobs) : bool 
     let m1 := wm_op m o in
     let m2 := match o, l with
               | SPollCall i, [OCall (CDone _)] =>
-                {| wm_calls := wm_calls m1; wm_live := wm_live m1; wm_done := i :: wm_done m1; wm_dropped := wm_dropped m1; wm_handles := wm_handles m1; wm_dead := wm_dead m1; wm_ended := wm_ended m1; wm_ready := wm_ready m1; wm_flush := wm_flush m1; wm_tainted := wm_tainted m1 |}
+                {| wm_calls := wm_calls m1; wm_live := wm_live m1; wm_done := i :: wm_done m1; wm_dropped := wm_dropped m1; wm_handles := wm_handles m1; wm_dead := wm_dead m1; wm_ended := wm_ended m1; wm_ready := wm_ready m1; wm_flush := wm_flush m1; wm_tainted := wm_tainted m1; wm_delivered := wm_delivered m1; wm_read := wm_read m1 |}
               | SPollD, [_; ODisp (DReady d); _] =>
-                {| wm_calls := wm_calls m1; wm_live := wm_live m1; wm_done := wm_done m1; wm_dropped := wm_dropped m1; wm_handles := wm_handles m1; wm_dead := match d with DErr _ => true | DOk => wm_dead m1 end; wm_ended := true; wm_ready := wm_ready m1; wm_flush := wm_flush m1; wm_tainted := wm_tainted m1 |}
+                {| wm_calls := wm_calls m1; wm_live := wm_live m1; wm_done := wm_done m1; wm_dropped := wm_dropped m1; wm_handles := wm_handles m1; wm_dead := match d with DErr _ => true | DOk => wm_dead m1 end; wm_ended := true; wm_ready := wm_ready m1; wm_flush := wm_flush m1; wm_tainted := wm_tainted m1; wm_delivered := wm_delivered m1; wm_read := wm_read m1 |}
               | _, _ => m1 end in
     negb (existsb (fun x => match x with OPanic | OSpin => true | _ => false end) l)
     && c02_run c m2 ops' tr'
-  | WSettle :: ops', WS _ _ dn disp a _ :: tr' =>
+  | WSettle :: ops', WS _ rd dn disp a _ :: tr' =>
     let m1 := {| wm_calls := wm_calls m; wm_live := wm_live m; wm_done := map fst dn ++ wm_done m;
                  wm_dropped := wm_dropped m; wm_handles := wm_handles m;
                  wm_dead := match disp with Some (DErr _) => true | _ => wm_dead m end;
                  wm_ended := match disp with Some _ => true | None => wm_ended m end;
-                 wm_ready := wm_ready m; wm_flush := wm_flush m; wm_tainted := wm_tainted m |} in
+                 wm_ready := wm_ready m; wm_flush := wm_flush m; wm_tainted := wm_tainted m;
+                 wm_delivered := wm_delivered m; wm_read := wm_read m + length rd |} in
     let writable_b := wm_ready m1 && wm_flush m1 && negb (wm_tainted m1)
                       && (Nat.eqb (cf_cap c) 0 || cf_coupled c) in
     (negb (wm_dead m1) || negb (wm_unresolved m1))
     && (negb (negb (wm_ended m1) && writable_b && wm_unresolved m1 && (1 <=? cf_maxif c)%nat)
         || (1 <=? a))
+    (* (d) while the dispatch runs on a transport nobody tampered with, every response the peer
+       delivered has been read when the system is quiescent *)
+    && (wm_ended m1 || wm_tainted m1 || Nat.eqb (wm_delivered m1) (wm_read m1))
     && c02_run c m1 ops' tr'
   | _, _ => false          (* WFuel, or a malformed trace *)
   end.
